@@ -142,9 +142,9 @@ Definition loadobs_eqb (a b : loadobs) : bool :=
   | _, _ => false
   end.
 
-Definition check (fx2 fx5 fx6 fx7 : bool) (c : case) : verdict :=
+Definition check (fx2 fx3 fx5 fx6 fx7 : bool) (c : case) : verdict :=
   let eng := eng_of (c_oracle c) in
-  match load (c_rules c) with
+  match load fx3 (c_rules c) with
   | CreateFailed => {| v_corr := loadobs_eqb (c_load c) OCreateFailed; v_prop := true; v_guards := [] |}
   | AddFailed => {| v_corr := loadobs_eqb (c_load c) OAddFailed; v_prop := true; v_guards := [] |}
   | ModelFuel => {| v_corr := false; v_prop := true; v_guards := [] |}
